@@ -1765,23 +1765,25 @@ class System(object, metaclass=SystemMetaclass):
             perturb *= perturb_size
             perturbs.append(perturb)
 
-        for i in range(num_iters):
-            # add random noise to the perturbed vectors
-            for pvec, starting, perturb in zip(perturb_vecs, save_perturb_arrays, perturbs):
-                pvec.set_val(starting + perturb * np.random.random(perturb.size))
+        try:
+            for i in range(num_iters):
+                # add random noise to the perturbed vectors
+                for pvec, starting, perturb in zip(perturb_vecs, save_perturb_arrays, perturbs):
+                    pvec.set_val(starting + perturb * np.random.random(perturb.size))
 
-            yield i
+                yield i
+        finally:
+            # also when the caller stopped early because the system raised an exception
+            if use_approx:
+                # revert uncolored approx back to normal
+                for scheme in self._approx_schemes.values():
+                    scheme._reset()
 
-        if use_approx:
-            # revert uncolored approx back to normal
-            for scheme in self._approx_schemes.values():
-                scheme._reset()
-
-        # restore original Vectors
-        for vec, save_array in zip(perturb_vecs, save_perturb_arrays):
-            vec.set_val(save_array)
-        for vec, save_array in zip(save_vecs, save_arrays):
-            vec.set_val(save_array)
+            # restore original Vectors
+            for vec, save_array in zip(perturb_vecs, save_perturb_arrays):
+                vec.set_val(save_array)
+            for vec, save_array in zip(save_vecs, save_arrays):
+                vec.set_val(save_array)
 
     def compute_sparsity(self, direction=None, num_iters=2, perturb_size=1e-9):
         """
@@ -1846,22 +1848,28 @@ class System(object, metaclass=SystemMetaclass):
         save_jac = self._jacobian
         self._jacobian = _ColSparsityJac(self)
 
-        if isinstance(self, Group):
-            for _ in self._perturbation_iter(num_iters, perturb_size, pvecs, save_vecs):
-                with self._relevance.nonlinear_active('iter'):
-                    self._solve_nonlinear()
-                self.run_linearize(sub_do_ln=False)
-            sparsity, sp_info = self._jacobian.get_sparsity()
-        else:
-            # this avoids calling any compute_partials/linearize methods which will fail
-            # because _ColSparsityJac only supports set_col and not dict access.
-            sparsity, sp_info = \
-                self.compute_fd_sparsity(method=method, num_full_jacs=num_iters,
-                                         perturb_size=perturb_size)
-
-        self._jacobian = save_jac
-        self._during_coloring = False
-        self._first_call_to_linearize = save_first_call
+        try:
+            if isinstance(self, Group):
+                perturbations = self._perturbation_iter(num_iters, perturb_size, pvecs, save_vecs)
+                try:
+                    for _ in perturbations:
+                        with self._relevance.nonlinear_active('iter'):
+                            self._solve_nonlinear()
+                        self.run_linearize(sub_do_ln=False)
+                finally:
+                    perturbations.close()
+                sparsity, sp_info = self._jacobian.get_sparsity()
+            else:
+                # this avoids calling any compute_partials/linearize methods which will fail
+                # because _ColSparsityJac only supports set_col and not dict access.
+                sparsity, sp_info = \
+                    self.compute_fd_sparsity(method=method, num_full_jacs=num_iters,
+                                             perturb_size=perturb_size)
+        finally:
+            # don't stay in sparsity-collecting mode if the system raised an exception
+            self._jacobian = save_jac
+            self._during_coloring = False
+            self._first_call_to_linearize = save_first_call
 
         self._update_subjac_sparsity(self.subjac_sparsity_iter(sparsity=sparsity))
 
